@@ -7,6 +7,8 @@
 //   int  <MACRO> <te> <ve> <ta> <va>            integer equality macros, C++ and C entry points
 //   enum <tu> <te> <ve> <ta> <va>               ENUMS_EQUAL_TYPE(tu, (enum:te) ve, (enum:ta) va); tu=i32 uses ENUMS_EQUAL_INT
 //   bool <MACRO> <t> <v>                        CHECK CHECK_TRUE CHECK_FALSE CHECK_C
+//   boolx <MACRO> <op> <a> <b>                  the same eight macros on a COMPOUND condition over two ints: or `a || b`, and `a && b`,
+//                                               eq `a == b`, ne `a != b`, lt `a < b`, cond `a ? b : 0` (top-level operator binds weaker than unary !)
 //   dbl  <MACRO> <e> <a> <tol>                  DOUBLES_EQUAL C_REAL CHECK_EQUAL(doubles; tol unused)
 //   dcmp <relop> <e> <a>                        CHECK_COMPARE on doubles
 //   str  <MACRO> <e> <a> <n>                    STRCMP_EQUAL STRNCMP_EQUAL STRCMP_NOCASE_EQUAL STRCMP_CONTAINS
@@ -321,6 +323,53 @@ bool op_bool(const vh::Words& w) {
     std::string sv = store(0, t, w[3]);
     store(1, t, "0");
     vh::emit("> bool %s %s %s", m.c_str(), w[2].c_str(), sv.c_str());
+    report(run_fn(fn));
+    return true;
+}
+
+// ---- boolean macros on compound conditions -------------------------------------------------------
+// The condition handed to the macro is an expression whose top-level operator binds weaker than unary `!`
+// (and than a cast): the expansion has to treat the WHOLE argument as the predicate.
+int g_bx[2];
+#define BX_OPS(X, TAG, MAC) \
+    X(TAG, MAC, o_or, a || b) X(TAG, MAC, o_and, a && b) X(TAG, MAC, o_eq, a == b) X(TAG, MAC, o_ne, a != b) \
+    X(TAG, MAC, o_lt, a < b) X(TAG, MAC, o_cond, a ? b : 0)
+#define BX_PLAIN(TAG, MAC, OP, EXPR) void bx_##TAG##_##OP() { int a = g_bx[0], b = g_bx[1]; (void) a; (void) b; MAC(EXPR); }
+#define BX_TEXT(TAG, MAC, OP, EXPR) void bx_##TAG##_##OP() { int a = g_bx[0], b = g_bx[1]; (void) a; (void) b; MAC(EXPR, "text"); }
+BX_OPS(BX_PLAIN, CHECK, CHECK)
+BX_OPS(BX_PLAIN, CHECK_TRUE, CHECK_TRUE)
+BX_OPS(BX_PLAIN, CHECK_FALSE, CHECK_FALSE)
+BX_OPS(BX_PLAIN, CHECK_C, CHECK_C)
+BX_OPS(BX_TEXT, CHECK_TEXT, CHECK_TEXT)
+BX_OPS(BX_TEXT, CHECK_TRUE_TEXT, CHECK_TRUE_TEXT)
+BX_OPS(BX_TEXT, CHECK_FALSE_TEXT, CHECK_FALSE_TEXT)
+BX_OPS(BX_TEXT, CHECK_C_TEXT, CHECK_C_TEXT)
+struct BxEntry { const char* macro; const char* op; Fn0 fn; };
+#define BX_ROW(TAG, MAC, OP, EXPR) { #TAG, #OP + 2, &bx_##TAG##_##OP },
+const BxEntry g_bx_table[] = {
+    BX_OPS(BX_ROW, CHECK, CHECK) BX_OPS(BX_ROW, CHECK_TRUE, CHECK_TRUE) BX_OPS(BX_ROW, CHECK_FALSE, CHECK_FALSE)
+    BX_OPS(BX_ROW, CHECK_C, CHECK_C) BX_OPS(BX_ROW, CHECK_TEXT, CHECK_TEXT) BX_OPS(BX_ROW, CHECK_TRUE_TEXT, CHECK_TRUE_TEXT)
+    BX_OPS(BX_ROW, CHECK_FALSE_TEXT, CHECK_FALSE_TEXT) BX_OPS(BX_ROW, CHECK_C_TEXT, CHECK_C_TEXT)
+};
+
+bool parse_int32(const std::string& s, int& v) {
+    if (s.empty()) return false;
+    char* end = 0;
+    long long x = strtoll(s.c_str(), &end, 10);       // saturates outside long long: rejected by the range test
+    if (*end || x < -2147483647LL - 1 || x > 2147483647LL) return false;
+    v = (int) x;
+    return true;
+}
+
+bool op_boolx(const vh::Words& w) {
+    if (w.size() != 5) return false;
+    Fn0 fn = 0;
+    for (size_t i = 0; i < sizeof g_bx_table / sizeof g_bx_table[0]; i++)
+        if (w[1] == g_bx_table[i].macro && w[2] == g_bx_table[i].op) fn = g_bx_table[i].fn;
+    int a, b;
+    if (!fn || !parse_int32(w[3], a) || !parse_int32(w[4], b)) return false;
+    g_bx[0] = a; g_bx[1] = b;
+    vh::emit("> boolx %s %s %d %d", w[1].c_str(), w[2].c_str(), a, b);
     report(run_fn(fn));
     return true;
 }
@@ -699,6 +748,7 @@ void run_case(const vh::Case& c) {
         if (w[0] == "int") done = op_int(w);
         else if (w[0] == "enum") done = op_enum(w);
         else if (w[0] == "bool") done = op_bool(w);
+        else if (w[0] == "boolx") done = op_boolx(w);
         else if (w[0] == "dbl") done = op_dbl(w);
         else if (w[0] == "dcmp") done = op_dcmp(w);
         else if (w[0] == "cmp") done = op_cmp(w);
